@@ -249,14 +249,68 @@ STATUS = {"ls": "line_state", "vv": "vbus_valid", "sv": "session_valid", "se": "
           "rxe": "rx_error", "hd": "host_disconnect", "idd": "id_digital"}
 
 
-def make_translator():
-    """Elaborate the real UTMITranslator on a ULPI record without `rst`/`clk` (phy_ready immediate)."""
+BASE_CONFIG = {"record": "plain",          # "plain": data/nxt/stp/dir only; "rst": + rst.o; "rst_clko": + rst.o, clk.o
+               "handle_clocking": False,
+               "startup": None,            # override of UTMITranslator._CYCLES_1_MILLISECONDS (records with rst)
+               "extra": [],                # add_extra_register calls: (addr, "const"|"sig", value, default|None)
+               "platform": None,           # {"extra": {addr: value}, "raw_domain": name|None} -> platform object
+               "use_platform_registers": False,
+               "domain": "usb",            # != "usb": the translator is wrapped in a DomainRenamer
+               "phy_regs": {}}             # the PHY's real reset values of the extra registers
+
+
+class _Platform:
+    pass
+
+
+def make_translator(config=None):
+    """Elaborate the real UTMITranslator in the given configuration.  Returns a dict with the fragment to
+    simulate, the DUT, the bus record, the clock domain objects and the Signals of dynamic extra registers."""
+    from amaranth import Module, Elaboratable, ClockDomain, DomainRenamer, Signal, Fragment
     from amaranth.hdl.rec import Record
     from luna.gateware.interface.ulpi import UTMITranslator
-    bus = Record([("data", [("i", 8), ("o", 8), ("oe", 1)]), ("nxt", [("i", 1)]),
-                  ("stp", [("o", 1)]), ("dir", [("i", 1)])])
-    dut = UTMITranslator(ulpi=bus, handle_clocking=False, use_platform_registers=False)
-    return dut, bus
+    cfg = dict(BASE_CONFIG)
+    cfg.update(config or {})
+    layout = [("data", [("i", 8), ("o", 8), ("oe", 1)]), ("nxt", [("i", 1)]), ("stp", [("o", 1)]), ("dir", [("i", 1)])]
+    if cfg["record"] in ("rst", "rst_clko"):
+        layout.append(("rst", [("o", 1)]))
+    if cfg["record"] == "rst_clko":
+        layout.append(("clk", [("o", 1)]))
+    bus = Record(layout)
+    cls = UTMITranslator
+    if cfg["startup"] is not None:
+        cls = type("ScaledUTMITranslator", (UTMITranslator,), {"_CYCLES_1_MILLISECONDS": cfg["startup"]})
+    dut = cls(ulpi=bus, handle_clocking=cfg["handle_clocking"], use_platform_registers=cfg["use_platform_registers"])
+    xsigs = []
+    for addr, kind, value, default in cfg["extra"]:
+        if kind == "sig":
+            sig = Signal(8, init=value, name="extra_%02x" % addr)
+            xsigs.append((addr, sig))
+            dut.add_extra_register(addr, sig, default_value=default)
+        else:
+            dut.add_extra_register(addr, value, default_value=default)
+    platform = None
+    raw = None
+    if cfg["platform"] is not None:
+        platform = _Platform()
+        if cfg["platform"].get("extra") is not None:
+            platform.ulpi_extra_registers = dict(cfg["platform"]["extra"])
+        raw = cfg["platform"].get("raw_domain")
+        if raw:
+            platform.ulpi_raw_clock_domain = raw
+    dom = cfg["domain"]
+    cds = {}
+
+    class Top(Elaboratable):
+        def elaborate(self, plat):
+            m = Module()
+            for name in [dom] + ([raw] if raw and raw != dom else []):
+                cds[name] = ClockDomain(name)
+                m.domains += cds[name]
+            m.submodules.dut = DomainRenamer({"usb": dom})(dut) if dom != "usb" else dut
+            return m
+    frag = Fragment.get(Top(), platform)
+    return {"frag": frag, "dut": dut, "bus": bus, "cds": cds, "xsigs": xsigs, "cfg": cfg}
 
 
 def function_control(c):
@@ -287,11 +341,14 @@ class TranslatorBench:
     """
     SETTLE = 3
 
-    def __init__(self):
+    def __init__(self, config=None):
         from amaranth.sim import Simulator
-        self.dut, self.bus = make_translator()
-        self.sim = Simulator(self.dut)
-        self.sim.add_clock(1 / 60e6, domain="usb")
+        t = make_translator(config)
+        self.dut, self.bus, self.cfg, self.cds, self.xsigs = t["dut"], t["bus"], t["cfg"], t["cds"], t["xsigs"]
+        self.domain = self.cfg["domain"]
+        self.sim = Simulator(t["frag"])
+        for name in self.cds:
+            self.sim.add_clock(1 / 60e6, domain=name)
         self._script = None
         self._out = None
         self._first = True
@@ -301,6 +358,18 @@ class TranslatorBench:
         s = self._script
         dut, bus = self.dut, self.bus
         phy = ULPIPhy(**s.get("phy", {}))
+        xaddrs = [a for a, _, _, _ in self.cfg["extra"]] + \
+                 (sorted((self.cfg["platform"] or {}).get("extra") or {}) if self.cfg["use_platform_registers"] else [])
+        xconst = {a: v for a, k, v, _ in self.cfg["extra"] if k == "const"}
+        if self.cfg["use_platform_registers"]:
+            xconst.update((self.cfg["platform"] or {}).get("extra") or {})
+        xval = {a: v for a, k, v, _ in self.cfg["extra"] if k == "sig"}
+        xchanges = s.get("xsig", {})                 # {cycle: {addr: value}} for dynamic extra registers
+        phy0 = dict(RESET_REGS)
+        phy0.update(self.cfg["phy_regs"])
+        phy.regs = dict(phy0)
+        has_rst = hasattr(bus, "rst")
+        resets = s.get("resets", ())
         tx = UTMITransmitter()
         for p in s.get("packets", []):
             tx.offer(p)
@@ -318,11 +387,26 @@ class TranslatorBench:
         for k, v in ctrl.items():
             ctx.set(getattr(dut, CONTROL_ATTR[k]), v)
 
+        def xreq(a):
+            return xval[a] if a in xval else xconst[a]
+
         def unsettled(t):
             return (function_control(ctrl) != phy.regs[0x04] or otg_control(ctrl) != phy.regs[0x0A]
+                    or any(phy.regs.get(a) != xreq(a) for a in xaddrs)
                     or t - phy.last_write_t <= self.SETTLE)
 
         for t in range(s["n"]):
+            # domain reset (ResetSignal) for one cycle; the UTMI side shares the domain and restarts as well
+            in_reset = t in resets
+            for cd in self.cds.values():
+                ctx.set(cd.rst, 1 if in_reset else 0)
+            if in_reset:
+                tx.cur = None
+                want_start = False
+            for a, sig in self.xsigs:
+                if t in xchanges and a in xchanges[t]:
+                    xval[a] = xchanges[t][a]
+                    ctx.set(sig, xval[a])
             d, n, di = phy.outputs()
             ctx.set(bus.dir.i, d)
             ctx.set(bus.nxt.i, n)
@@ -354,7 +438,12 @@ class TranslatorBench:
             oe = ctx.get(bus.data.oe)
             stp = ctx.get(bus.stp.o)
             txr = ctx.get(dut.tx_ready)
-            r = {"dir": d, "nxt": n, "di": di, "rr": phy.rr, "txv": txv, "txd": txd,
+            rst_o = ctx.get(bus.rst.o) if has_rst else 0
+            r = {"rst": 1 if (in_reset or rst_o) else 0, "x1": xreq(xaddrs[0]) if xaddrs else 0,
+                 "x2": xreq(xaddrs[1]) if len(xaddrs) > 1 else 0,
+                 "p1": phy.regs.get(xaddrs[0], 0) if xaddrs else 0,
+                 "p2": phy.regs.get(xaddrs[1], 0) if len(xaddrs) > 1 else 0,
+                 "dir": d, "nxt": n, "di": di, "rr": phy.rr, "txv": txv, "txd": txd,
                  "do": do, "oe": oe, "stp": stp, "txr": txr,
                  "rxd": ctx.get(dut.rx_data), "rxv": ctx.get(dut.rx_valid), "rxa": ctx.get(dut.rx_active),
                  "busy": ctx.get(dut.busy), "r4": phy.regs[0x04], "ra": phy.regs[0x0A]}
@@ -363,9 +452,17 @@ class TranslatorBench:
             r.update(ctrl)
             recs.append(r)
             ch = choices[t] if t < len(choices) else {"acc": True}
-            phy.observe(do, stp, oe, ch)
-            tx.observe(txr)
-            await ctx.tick("usb")
+            if rst_o:
+                # RESETB asserted: the PHY returns to its reset state (register file included)
+                events, tt = phy.events, phy.t
+                phy = ULPIPhy(**s.get("phy", {}))
+                phy.regs = dict(phy0)
+                phy.events, phy.t = events + [(tt, "phy_reset", 0)], tt + 1
+            else:
+                phy.observe(do, stp, oe, ch)
+            if not in_reset:
+                tx.observe(txr)
+            await ctx.tick(self.domain)
         self._out = (recs, phy, tx)
 
     def run(self, script):
@@ -424,6 +521,17 @@ class WindowDecoderBench:
         recs = []
         reads = []
         for t in range(s["n"]):
+            # domain reset (ResetSignal) for one cycle; the UTMI side shares the domain and restarts as well
+            in_reset = t in resets
+            for cd in self.cds.values():
+                ctx.set(cd.rst, 1 if in_reset else 0)
+            if in_reset:
+                tx.cur = None
+                want_start = False
+            for a, sig in self.xsigs:
+                if t in xchanges and a in xchanges[t]:
+                    xval[a] = xchanges[t][a]
+                    ctx.set(sig, xval[a])
             d, n, di = phy.outputs()
             ctx.set(bus.dir.i, d)
             ctx.set(bus.nxt.i, n)
